@@ -56,6 +56,7 @@ type VC struct {
 	rs         *runState
 	csHit      map[*CallSite]bool
 	indexTerms []string
+	tagTypes   map[string]types.Type
 	opaque     map[string]*Val
 	obReturn   map[*Obligation]*ssa.Return
 	paramVals  []*Val
